@@ -28,6 +28,7 @@
  *                          1: `if (state == UNINIT) store(INPROGRESS)` on the value of the first load
  *                          2: `if (load() == UNINIT) store(INPROGRESS)` (fresh load + store)
  *   -DORD_CAS_OK=o -DORD_CAS_FAIL=o          orders of the CAS (CLAIM=0)
+ *   -DCAS_WEAK=0|1         compare_exchange_weak used without a retry loop: may fail spuriously
  *   -DORD_CLAIM_LOAD=o -DORD_CLAIM_STORE=o   orders of load+store (CLAIM=1,2)
  *   -DORD_READY_STORE=o    store(READY)
  *   -DPTRS_AFTER_READY=0|1 0: pointer stores precede store(READY) in program order; 1: (some) follow it
@@ -40,6 +41,8 @@
  *   -DSPINMAX=k            a waiter performs at most k explicit loop loads that return INPROGRESS;
  *                          further such loads are stutter steps (they can only advance coh[t]) and are
  *                          modelled as blocking: the 1e9-iteration cap is a fair wait, not a behaviour
+ *   -DSCONLY=1             every load reads the newest message (sequentially consistent executions only): used to
+ *                          look for a counterexample that can be forced on the real code
  *   -DENUM                 history variables: every scheduling/read choice is recorded in the state, so
  *                          state matching cannot merge two executions; the last step of every complete
  *                          execution prints one EXEC line (pan compiled with -DPRINTF -DNOREDUCE)
@@ -103,6 +106,12 @@
 #ifndef SPINMAX
 #define SPINMAX 1
 #endif
+#ifndef CAS_WEAK
+#define CAS_WEAK 0
+#endif
+#ifndef SCONLY
+#define SCONLY 0
+#endif
 
 #define UNINIT 0
 #define INPROGRESS 1
@@ -162,40 +171,41 @@ bool nonsc = 0;         /* some load read a message that was not the last one */
 inline CHECK(cond, id) {
   if
   :: (cond) -> skip
-  :: else -> printf("MODEL-VIOLATION %d\n", id); assert(false)
+  :: else -> printf("MODEL-VIOLATION %d\n", id); assert(id == 0)
   fi
 }
 
 /* lowest message a load of thread t with order ord may read */
 #define LO(t, ord) (((ord) == SEQCST && lastsc > coh[t]) -> lastsc : coh[t])
-#define CAN(i, t, ord) ((i) < nm && (i) >= LO(t, ord))
+#define CAN(i, t, ord) ((i) < nm && (i) >= LO(t, ord) && (!SCONLY || (i) == nm - 1))
 
-/* nondeterministic choice of the message a load reads */
-inline PICK(t, ord, ri) {
+/* nondeterministic choice of the message a load reads. The guard g (the thread's program counter) is part of
+ * every option, so that a thread whose load is not enabled waits in ONE control state */
+inline PICK(g, t, ord, ri) {
   if
-  :: CAN(0, t, ord) -> ri = 0
-  :: CAN(1, t, ord) -> ri = 1
-  :: CAN(2, t, ord) -> ri = 2
-  :: CAN(3, t, ord) -> ri = 3
-  :: CAN(4, t, ord) -> ri = 4
-  :: CAN(5, t, ord) -> ri = 5
-  :: CAN(6, t, ord) -> ri = 6
-  :: CAN(7, t, ord) -> ri = 7
+  :: ((g) && CAN(0, t, ord)) -> ri = 0
+  :: ((g) && CAN(1, t, ord)) -> ri = 1
+  :: ((g) && CAN(2, t, ord)) -> ri = 2
+  :: ((g) && CAN(3, t, ord)) -> ri = 3
+  :: ((g) && CAN(4, t, ord)) -> ri = 4
+  :: ((g) && CAN(5, t, ord)) -> ri = 5
+  :: ((g) && CAN(6, t, ord)) -> ri = 6
+  :: ((g) && CAN(7, t, ord)) -> ri = 7
   fi
 }
 /* the loop load: a message with INPROGRESS/UNINIT is read explicitly at most SPINMAX times, then only
  * a message that ends the loop is enabled (blocking wait) */
 #define CANSPIN(i, t, ord) (CAN(i, t, ord) && (mval[i] >= READY || spins[t] < SPINMAX))
-inline PICKSPIN(t, ord, ri) {
+inline PICKSPIN(g, t, ord, ri) {
   if
-  :: CANSPIN(0, t, ord) -> ri = 0
-  :: CANSPIN(1, t, ord) -> ri = 1
-  :: CANSPIN(2, t, ord) -> ri = 2
-  :: CANSPIN(3, t, ord) -> ri = 3
-  :: CANSPIN(4, t, ord) -> ri = 4
-  :: CANSPIN(5, t, ord) -> ri = 5
-  :: CANSPIN(6, t, ord) -> ri = 6
-  :: CANSPIN(7, t, ord) -> ri = 7
+  :: ((g) && CANSPIN(0, t, ord)) -> ri = 0
+  :: ((g) && CANSPIN(1, t, ord)) -> ri = 1
+  :: ((g) && CANSPIN(2, t, ord)) -> ri = 2
+  :: ((g) && CANSPIN(3, t, ord)) -> ri = 3
+  :: ((g) && CANSPIN(4, t, ord)) -> ri = 4
+  :: ((g) && CANSPIN(5, t, ord)) -> ri = 5
+  :: ((g) && CANSPIN(6, t, ord)) -> ri = 6
+  :: ((g) && CANSPIN(7, t, ord)) -> ri = 7
   fi
 }
 
@@ -274,9 +284,21 @@ inline CLAIMED(t) {
   CHECK(nwin <= 1, V_ONE_WINNER)
 }
 
+/* program counters: one per atomic operation of the source; every transition of a thread is exactly
+ * one atomic operation followed by the thread-local code up to the next one */
+#define P_ENTRY 0
+#define P_INIT 1
+#define P_CLAIM 2
+#define P_CLAIMST 3
+#define P_WIN 4
+#define P_SPIN 5
+#define P_DONE 6
+#define FASTBIT(t) ((fastmask >> t) & 1)
+
 inline FINISH(t, r) {
   res[t] = r;
   ndone++;
+  pc = P_DONE;
   ri = 0; v = 0; won = 0;
 #ifdef ENUM
   if
@@ -300,121 +322,144 @@ inline FINISH(t, r) {
 #endif
 }
 
+/* ensure_tables() returned true: the caller now reads the table pointers */
+inline RET_TRUE(t) {
+  CHECK(have_ready, V_READY_EXISTS);
+  CHECK(sees[t], V_DEREF_PUBLISHED);
+  FINISH(t, 1)
+}
+inline RET_FALSE(t) {
+  CHECK(won || have_failed, V_FAILED_EXISTS);
+  FINISH(t, 2)
+}
+/* what follows a successful claim up to the next atomic operation */
+inline AFTER_CLAIM(t) {
+  CLAIMED(t);
+#if FAIL_STORE_PRESENT == 0
+  if
+  :: inflate_fails -> RET_FALSE(t)       /* failure branch returns without telling anybody */
+  :: else -> pc = P_WIN
+  fi
+#else
+  pc = P_WIN
+#endif
+}
+
 proctype T(byte t) {
+  byte pc = P_ENTRY;
   byte ri = 0;
   byte v = 0;
   bool won = 0;
 
+#ifdef ENUM
+end:
+#endif
+  do
   /* ---- optional entry through tables_are_ready() (ada::idna::is_already_nfc) */
-  if
-  :: ((fastmask >> t) & 1) ->
-       atomic {
-         PICK(t, ORD_FAST_LOAD, ri);
-         d_step { DO_LOAD(t, ORD_FAST_LOAD, ri, v) }
-       };
-       if
-       :: v == READY -> goto ret_true
-       :: else -> skip
-       fi
-  :: else -> skip
-  fi;
-
-  /* ---- ensure_tables(): uint8_t state = load() */
-  atomic {
-    PICK(t, ORD_INIT_LOAD, ri);
-    d_step { DO_LOAD(t, ORD_INIT_LOAD, ri, v) }
-  };
-  if
-  :: v == READY -> goto ret_true
-  :: v == FAILED -> goto ret_false
-  :: else -> skip
-  fi;
-
+  :: atomic {
+       PICK(pc == P_ENTRY && FASTBIT(t), t, ORD_FAST_LOAD, ri);
+       d_step {
+         DO_LOAD(t, ORD_FAST_LOAD, ri, v);
+         if
+         :: v == READY -> RET_TRUE(t)
+         :: else -> pc = P_INIT
+         fi
+       }
+     }
+  /* ---- ensure_tables(): uint8_t state = load(); */
+  :: atomic {
+       PICK(pc == P_INIT || (pc == P_ENTRY && !FASTBIT(t)), t, ORD_INIT_LOAD, ri);
+       d_step {
+         DO_LOAD(t, ORD_INIT_LOAD, ri, v);
+         if
+         :: v == READY -> RET_TRUE(t)
+         :: v == FAILED -> RET_FALSE(t)
+#if CLAIM == 1
+         :: v == INPROGRESS -> pc = P_SPIN          /* `if (state == UNINIT)` not taken: no atomic operation */
+         :: v == UNINIT -> pc = P_CLAIMST
+#else
+         :: else -> pc = P_CLAIM
+#endif
+         fi
+       }
+     }
   /* ---- claim the initialisation */
 #if CLAIM == 0
-  d_step {
-    DO_CAS(t, ORD_CAS_OK, ORD_CAS_FAIL, ri, v, won);
-    if
-    :: won -> CLAIMED(t)
-    :: else -> skip
-    fi
-  };
+  :: d_step {
+       pc == P_CLAIM ->
+       DO_CAS(t, ORD_CAS_OK, ORD_CAS_FAIL, ri, v, won);
+       if
+       :: won -> AFTER_CLAIM(t)
+       :: else -> pc = P_SPIN
+       fi
+     }
+#if CAS_WEAK
+  :: d_step {
+       (pc == P_CLAIM && mval[nm - 1] == UNINIT) ->       /* compare_exchange_weak may fail spuriously */
+       ri = nm - 1; v = UNINIT; coh[t] = ri;
+       REC(t, 2, v, ri, ORD_CAS_FAIL, 0);
+       TRACE_CAS(t, ORD_CAS_FAIL, ri, v, 0);
+       won = 0; pc = P_SPIN
+     }
 #endif
-#if CLAIM == 1
-  if
-  :: v == UNINIT ->
-       d_step { DO_STORE(t, INPROGRESS, ORD_CLAIM_STORE); won = 1; CLAIMED(t) }
-  :: else -> won = 0
-  fi;
 #endif
 #if CLAIM == 2
-  atomic {
-    PICK(t, ORD_CLAIM_LOAD, ri);
-    d_step { DO_LOAD(t, ORD_CLAIM_LOAD, ri, v) }
-  };
-  if
-  :: v == UNINIT ->
-       d_step { DO_STORE(t, INPROGRESS, ORD_CLAIM_STORE); won = 1; CLAIMED(t) }
-  :: else -> won = 0
-  fi;
+  :: atomic {
+       PICK(pc == P_CLAIM, t, ORD_CLAIM_LOAD, ri);
+       d_step {
+         DO_LOAD(t, ORD_CLAIM_LOAD, ri, v);
+         if
+         :: v == UNINIT -> pc = P_CLAIMST
+         :: else -> pc = P_SPIN
+         fi
+       }
+     }
 #endif
-
-  if
-  :: won ->
-       /* ---- winner: inflate + CRC, publish */
+#if CLAIM != 0
+  :: d_step {
+       pc == P_CLAIMST ->
+       DO_STORE(t, INPROGRESS, ORD_CLAIM_STORE);
+       won = 1;
+       AFTER_CLAIM(t)
+     }
+#endif
+  /* ---- winner: inflate + CRC, publish */
+  :: d_step {
+       pc == P_WIN ->
        if
        :: inflate_fails ->
-#if FAIL_STORE_PRESENT
-            d_step { DO_STORE(t, FAILED, ORD_FAIL_STORE) };
-#endif
-            goto ret_false
+            DO_STORE(t, FAILED, ORD_FAIL_STORE);
+            RET_FALSE(t)
        :: else ->
-            d_step {
 #if PTRS_AFTER_READY == 0
-              sees[t] = 1;                              /* plain pointer stores: own view only */
-              DO_STORE(t, READY, ORD_READY_STORE)
+            sees[t] = 1;                              /* plain pointer stores: own view only */
+            DO_STORE(t, READY, ORD_READY_STORE);
 #else
-              DO_STORE(t, READY, ORD_READY_STORE);
-              sees[t] = 1
+            DO_STORE(t, READY, ORD_READY_STORE);
+            sees[t] = 1;
 #endif
-            };
-            goto ret_true
+            RET_TRUE(t)
        fi
-  :: else -> skip
-  fi;
-
+     }
   /* ---- waiter: for (spins < 1e9) { state = load(); ... } */
-spin:
-  atomic {
-    PICKSPIN(t, ORD_SPIN_LOAD, ri);
-    d_step { DO_LOAD(t, ORD_SPIN_LOAD, ri, v) }
-  };
-  if
-  :: v == READY -> goto ret_true
-  :: v == FAILED -> goto ret_false
-  :: else -> spins[t]++; goto spin
-  fi;
-
-ret_true:
-  atomic {
-    d_step {
-      CHECK(have_ready, V_READY_EXISTS);
-      CHECK(sees[t], V_DEREF_PUBLISHED);      /* the caller now reads the table pointers */
-      FINISH(t, 1)
-    }
-  };
-  goto done;
-
-ret_false:
-  atomic {
-    d_step {
-      CHECK(won || have_failed, V_FAILED_EXISTS);
-      FINISH(t, 2)
-    }
-  };
-
-done:
-  skip
+  :: atomic {
+       PICKSPIN(pc == P_SPIN, t, ORD_SPIN_LOAD, ri);
+       d_step {
+         DO_LOAD(t, ORD_SPIN_LOAD, ri, v);
+         if
+         :: v == READY -> RET_TRUE(t)
+         :: v == FAILED -> RET_FALSE(t)
+         :: else -> spins[t]++
+         fi
+       }
+     }
+#ifndef ENUM
+  /* verification runs: a finished thread terminates, so that a waiter left in its loop for ever is an
+   * invalid end state. ENUM runs: finished threads just stop (end label), so that no thread-local step
+   * can make two copies of one execution */
+  :: pc == P_DONE -> break
+#endif
+  od
 }
 
 init {
